@@ -8,7 +8,7 @@ EXTENDS WriterFaults, TLC
 CONSTANTS MaxOut
 VARIABLES out, k, mode, pos, st, writes, done, reterr
 vars == <<out, k, mode, pos, st, writes, done, reterr>>
-Init == /\ out \in 0..MaxOut /\ k \in 0..MaxOut /\ mode \in {"errAtCall", "shortWrite", "transientErr", "transientShort", "budget"}
+Init == /\ out \in 0..MaxOut /\ k \in 0..MaxOut /\ mode \in {"errAtCall", "shortWrite", "transientErr", "transientShort", "budget", "fullErr", "transientFull"}
         /\ pos = 0 /\ st = [acc |-> 0, failed |-> FALSE] /\ writes = <<>> /\ done = FALSE /\ reterr = FALSE
 \* next Write call of an arbitrary size, or completion
 Step == /\ ~done
@@ -21,13 +21,13 @@ Step == /\ ~done
            \/ /\ pos = out /\ done' = TRUE /\ reterr' = FALSE /\ UNCHANGED <<st, writes, pos>>
         /\ UNCHANGED <<out, k, mode>>
 Spec == Init /\ [][Step]_vars
-AcceptedIsPrefix == st.acc <= out /\ st.acc <= pos + (IF mode \in {"shortWrite", "transientShort"} THEN out ELSE 0)
+AcceptedIsPrefix == st.acc <= out /\ st.acc <= pos + (IF mode \in {"shortWrite", "transientShort"} \cup FullModes THEN out ELSE 0)
 NoFalseSuccess == (done /\ k < out) => reterr
 ControlSucceeds == (done /\ k >= out) => (~reterr /\ st.acc = out)
 \* the behaviours of this model refine the typed module whose invariant Apalache proves inductive for all sizes
 \* (a serializer that stops at its first failed write never sees whether the destination would have recovered: the
 \* transient and budget destinations map onto the sticky ones)
-AbsMode == IF mode \in {"shortWrite", "transientShort"} THEN "shortWrite" ELSE "errAtCall"
+AbsMode == IF mode \in {"shortWrite", "transientShort"} THEN "shortWrite" ELSE IF mode \in FullModes THEN "fullErr" ELSE "errAtCall"
 Abs == INSTANCE WriterFaultsInd WITH acc <- st.acc, failed <- st.failed, mode <- AbsMode
 AbsSpec == Abs!Spec
 AbsInv == Abs!IndInv
